@@ -24,6 +24,29 @@ def spans(c):
 def listing(op):
     return tuple(l for l in op.lines if l.startswith(" file ") or l.startswith(" folder "))
 
+def alter_part(cab, variant):
+    """a copy of a cabinet that continues a folder from its predecessor, changed so that the join must be refused"""
+    import struct
+    b = bytearray(cab); flags = struct.unpack_from("<H", b, 30)[0]; pos = 36; fres = 0
+    if flags & 4:
+        hres, fres, bres = struct.unpack_from("<HBB", b, pos); pos += 4 + hres
+    for bit in (1, 2):
+        if flags & bit:
+            for _ in range(2):
+                while b[pos]: pos += 1
+                pos += 1
+    nfiles = struct.unpack_from("<H", b, 28)[0]; p = struct.unpack_from("<I", b, 16)[0]; hit = False
+    for _ in range(nfiles):
+        fidx = struct.unpack_from("<H", b, p + 8)[0]
+        if fidx in (0xFFFD, 0xFFFF):
+            hit = True
+            if variant == "nocommon": struct.pack_into("<I", b, p + 4, (struct.unpack_from("<I", b, p + 4)[0] + 1) & 0xFFFFFFFF)
+        p += 16
+        while b[p]: p += 1
+        p += 1
+    if variant == "comptype": b[pos + 7] ^= 1      # high byte of the first folder's compression type (window bits; unused for MSZIP and none)
+    return bytes(b) if hit else None
+
 def run(res, tier, replay):
     rng = random.Random(vlib.seed() * 32452843 + 13)
     res.rule = ("per generated set: all permutations of the adjacent joins (n <= 4), each join as append or prepend at random; listings from every member compared; all "
@@ -69,6 +92,15 @@ def run(res, tier, replay):
         sc.op("cab_new").op("cab_open", "c0", "in0.cab").op("cab_open", "c9", "inx.cab").op("cab_list", "c0").op("cab_list", "c9")
         sc.op("cab_append", "c0", "c9").op("cab_list", "c0").op("cab_list", "c9")
         scns.append(sc); meta.append(("mismatch", s, None, c))
+        # the right-hand part of this very set, altered so that the split folders must not be merged:
+        # (a) same method, other window size / parameter byte; (b) the continued files start at other offsets (no file in common)
+        for variant in ("comptype", "nocommon"):
+            alt = alter_part(c.files[c.parts[1]], variant)
+            if alt is None: continue
+            sc = scenario.Scn().file("in0.cab", c.files[c.parts[0]]).file("inx.cab", alt)
+            sc.op("cab_new").op("cab_open", "c0", "in0.cab").op("cab_open", "c9", "inx.cab").op("cab_list", "c0").op("cab_list", "c9")
+            sc.op("cab_append", "c0", "c9").op("cab_list", "c0").op("cab_list", "c9")
+            scns.append(sc); meta.append(("mustrefuse-" + variant, s, None, c))
     trs = scenario.run_scenarios(exe, scns)
     nbad = 0; refl = {}
     for t, (kind, s, order, c), sc in zip(trs, meta, scns):
@@ -124,7 +156,9 @@ def run(res, tier, replay):
                     if o.kv.get("st") != "0" or (o.out or "") != m.data.hex(): why = "member %s extracts wrongly after refused joins (st=%s)" % (m.name, o.kv.get("st")); break
         else:
             js = [o for o in t.ops if o.name == "cab_append"]
-            if js and js[0].kv.get("st") != "0":
+            if kind.startswith("mustrefuse") and js and js[0].kv.get("st") == "0":
+                why = "split folders that do not match (%s) were merged" % kind.split("-")[1]
+            elif js and js[0].kv.get("st") != "0":
                 if [listing(o) for o in lists[:2]] != [listing(o) for o in lists[2:4]]: why = "a refused join of non-matching cabinets changed their lists"
                 elif js[0].kv.get("st") != js[0].kv.get("err"): why = "last_error differs from the refusal's status"
                 elif t.ledger.get("live_allocs") or t.ledger.get("open_handles") or t.viol: why = "cabinets not separately closable after a refused join: %s %s" % (t.ledger, t.viol[:2])
